@@ -438,6 +438,16 @@ def f_bad():
         yield D([base], [r(ks[0], "T0", "T1"), r(ks[1], "T1", "T2"), r(ks[2], "T2", "T0")])
         yield D([base], [r(ks[0], "T0", "T1"), r(ks[1], "T1", "T2"), r(ks[2], "T0", "T2")])
         yield D([base], [r(ks[0], "M0", "M1"), r(ks[1], "M1", "M2"), r(ks[2], "M2", "M0")])
+    # priority cycles in which one edge joins two bodies defined in exclusive alternatives of one structure (and the
+    # acyclic twins)
+    t = [T(f"T{i}", [call(f"M{i}")]) for i in range(3)]
+    ms = [M(f"M{i}") for i in range(3)]
+    for k1, k2 in itertools.product(["conf", "before"], repeat=2):
+        r = lambda k, a, b: [k, a, b, "L" if k == "conf" else None]  # noqa: E731
+        yield D([ms + [If([t[0]], [t[1]], has_else=True)]], [r(k1, "T0", "T1"), r(k2, "T1", "T0")])
+        yield D([ms + [If([t[0]], [t[1]], has_else=True)]], [r(k1, "T0", "T1")])
+        yield D([ms + [If([t[0]], [t[1]], has_else=True), t[2]]], [r(k1, "T0", "T1"), r(k2, "T1", "T2"), r("conf", "T2", "T0")])
+        yield D([ms + [Sw(1, [(0, [t[0]]), (1, [t[1]])])]], [r(k1, "M0", "M1"), r(k2, "M1", "M0")])
     # single_caller from two transactions / one transaction
     yield D([[M("S", sc=True), T("T0", [call("S")]), T("T1", [call("S")])]])
     yield D([[M("S", sc=True), T("T0", [call("S")]), T("T1", [])]])
@@ -447,6 +457,10 @@ def f_bad():
     yield D([[m0, m1, T("T0", [call("M0"), T("N0", [call("M1")])])]])
     yield D([[m0, m1, T("T0", [call("M0"), T("N0", [call("M1")])])]], [["conf", "T0", "N0", "U"]])
     yield D([[m0, T("T0", [call("M0")]), T("T1", [call("M0")])]], [["before_rd", "T0", "T1", None]])
+    # ... where only SOME pairs of call sites of the shared method are control-exclusive
+    yield D([[m0, T("T0", [If([call("M0")], [call("M0"), T("N0", [call("M0")])], has_else=True)])]])
+    yield D([[m0, T("T0", [If([call("M0")], [T("N0", [call("M0")])], has_else=True)])]])
+    yield D([[m0, M("A", [call("M0")], nx=True), T("T0", [call("A"), T("N0", [If([call("A")], [call("M0")], has_else=True)])])]])
     yield D([[m0, m1, T("T0", [call("M0")]), T("T1", [call("M1")])]], [["before_rd", "T0", "T1", None]])
     # schedule_before source defined after its target
     yield D([[m0, m1, T("T0", [call("M0")]), T("T1", [call("M1")])]], [["before", "T1", "T0", None]])
